@@ -45,14 +45,15 @@ ApplyChanges(t, cs) ==
         F(tt, i) == IF i > Len(cs) THEN tt
                     ELSE LET c == cs[i] IN
                          F(IF c.del THEN Del(tt, c.k)
-                           ELSE Put(tt, c.k, [ver |-> c.ver, other |-> c.other, kind |-> c.kind, rev |-> c.rev]), i + 1)
+                           ELSE Put(tt, c.k, [ver |-> c.ver, other |-> c.other, kind |-> c.kind, rev |-> c.rev, names |-> c.names]), i + 1)
     IN F(t, 1)
 
 \* C15 for one change committed by the reconciler
 RecChangeBad(c) ==
     IF c.del THEN "C15_ReconcilerDeleted"
     ELSE IF c.k \notin DOMAIN tbl THEN "C15_NoResurrect"
-    ELSE IF c.ver # tbl[c.k].ver \/ c.other # tbl[c.k].other THEN "C15_StatusOnly"
+    \* (names: the statuses the other reconcilers of a StatusSet object have written)
+    ELSE IF c.ver # tbl[c.k].ver \/ c.other # tbl[c.k].other \/ c.names # tbl[c.k].names THEN "C15_StatusOnly"
     \* the refresh loop (when enabled) marks objects that are Done, and only those, for another Update
     ELSE IF c.kind = "Refreshing"
          THEN (IF cfg.refresh = 0 THEN "C15_StatusOnly"
@@ -62,10 +63,16 @@ RecChangeBad(c) ==
     ELSE IF (c.kind = "Done") # (~call[c.k].fail) THEN "C15_RightOutcome"
     ELSE "ok"
 
+\* the table as it reads at a commit (or at quiescence) is what the logged commits put there: a committed object
+\* is immutable, so a difference is a version that was overwritten without a write transaction (a stale result
+\* evaluated on a clone that shares memory with the newer version, say)
+Rows(t) == { << k, t[k].ver, t[k].kind, t[k].rev, t[k].names >> : k \in DOMAIN t }
 CommitBad(e) ==
-    IF e.by # "rec" THEN "ok"
-    ELSE LET bad == { RecChangeBad(e.changes[i]) : i \in 1..Len(e.changes) } \ {"ok"} IN
-         IF bad = {} THEN "ok" ELSE CHOOSE b \in bad : TRUE
+    LET bad == IF e.by # "rec" THEN {}
+               ELSE { RecChangeBad(e.changes[i]) : i \in 1..Len(e.changes) } \ {"ok"} IN
+    IF bad # {} THEN CHOOSE b \in bad : TRUE
+    ELSE IF Range(e.all) # Rows(ApplyChanges(tbl, e.changes)) THEN "C15_NewerOverwritten"
+    ELSE "ok"
 
 IsRetry(e) ==
     /\ e.k \in DOMAIN call /\ call[e.k].fail /\ call[e.k].kind = e.kind /\ call[e.k].ver = e.ver
@@ -108,6 +115,7 @@ QuiesceBad(e) ==
     LET rows == Range(e.table)
         tg == { << e.target[i][1], e.target[i][2] >> : i \in 1..Len(e.target) } IN
     IF tg # { << k, tgt[k] >> : k \in DOMAIN tgt } THEN "MACHINERY_TargetBookkeeping"
+    ELSE IF rows # Rows(tbl) THEN "C15_NewerOverwritten"
     \* (with the refresh loop running an object may be on its way from Done to Done again)
     ELSE IF \E r \in rows : r[3] # "Done" /\ ~(cfg.refresh > 0 /\ r[3] = "Refreshing") THEN "C14_Converged_Status"
     ELSE IF { << r[1], r[2] >> : r \in rows } # tg THEN "C14_Converged_Target"
